@@ -391,6 +391,15 @@ def gen_enum(idx):
                     fs.append(f)
                     depth = max(depth, ty.depth)
                     continue
+                if rng.random() < (0.6 if vflat else 0.2) and ty.has_default:
+                    f["skip"] = True
+                    opts.append("skip")
+                    f["opts"] = opts
+                    f["name"] = fid
+                    f["addressable"] = False
+                    f["required"] = False
+                    fs.append(f)
+                    continue
                 if rng.random() < 0.2 and ty.has_default:
                     f["default"] = "bare"
                     opts.append("default")
